@@ -292,6 +292,22 @@ Definition classify (g : shared) (s : st) (o : op) : dkind :=
   | _ => DNoop
   end.
 
+(* what mutateStateLocked publishes: rotation for the rotation goroutine, else the
+   truncation the current DeleteRange call asked for *)
+Definition pm3_tx (g : shared) (o : option op) (y : nat) (k : kont) : shared * list nat :=
+  let same := (publish g (mk_state (s_segs (getst g y)) (s_min (getst g y))), []) in
+  match k with
+  | KRot => do_rotate g y
+  | _ => match o with
+         | Some o => match classify g (getst g y) o with
+                     | DHead m => do_trunc_head g y m
+                     | DTail m => do_trunc_tail g y m
+                     | DNoop => same
+                     end
+         | None => same
+         end
+  end.
+
 (* ---- one atomic step of a thread ------------------------------------------- *)
 Definition cur_op (th : thread) : option op := hd_error (t_prog th).
 Definition setpc (th : thread) (p : pc) : thread :=
@@ -440,19 +456,8 @@ Definition step_thread (g : shared) (me : tid) (th : thread) : option (shared * 
                 end in
       if 0 <? g_meta_closes g then Some (g1, setpc th (PRel y MetaErr k))
       else Some (g1, setpc th (PM3 y k))
-  | PM3 y k =>
-      let '(g', hs) := match k with
-                       | KRot => do_rotate g y
-                       | _ => match cur_op th with
-                              | Some o => match classify g (getst g y) o with
-                                          | DHead m => do_trunc_head g y m
-                                          | DTail m => do_trunc_tail g y m
-                                          | DNoop => (publish g (mk_state (s_segs (getst g y)) (s_min (getst g y))), [])
-                                          end
-                              | None => (publish g (mk_state (s_segs (getst g y)) (s_min (getst g y))), [])
-                              end
-                       end in
-      Some (g', setpc th (PM4 y (FSet hs (g_cur g')) k))
+  | PM3 y k => let '(g', hs) := pm3_tx g (cur_op th) y k in
+                Some (g', setpc th (PM4 y (FSet hs (g_cur g')) k))
   | PM4 y f k => Some (upd_st g y (st_retire (getst g y) f), setpc th (PRel y (Ok 0) k))
   | PRel x r k =>
       let s := getst g x in
